@@ -259,6 +259,35 @@ pub fn c09_exhaustive(tier: &str, acc: &mut Acc) -> Value {
         "A B\n1 1 c\n".into(),
         "A\nbits(1,1) C\n".into(),
         "A\n1 # é\u{301}🙂\n$".into(),
+        "\u{feff}A B\n1 1\n".into(),
+        "\u{feff}\nA B\n1 1 1\n".into(),
+        "A\0B\n1\n".into(),
+        "A B\n1 \0 1\n".into(),
+        "A B\n\u{1}\u{2}\u{7f}\n".into(),
+        "A B\n1 1\u{85}\n".into(),
+        "A B\n1\u{2028}1\n".into(),
+        "\t \r\n \x0c\nA\x0cB\n1\x0c1\n".into(),
+        "A B\nlet é = 1;\n".into(),
+        "A B\n(1 +\n 2) 1\n".into(),
+        "A B\nbits(2,\n1)\n".into(),
+        "A B\nloop(i,\n2)\n1 1\nend loop\n".into(),
+        "A B\ndeclare = 1;\n".into(),
+        "A B\ndeclare v 1;\n".into(),
+        "A B\ndeclare v = ;\n".into(),
+        "A B\n(ite(1,2,3,4)) 1\n".into(),
+        "A B\n(ite(,,)) 1\n".into(),
+        "A B\n(random(1,)) 1\n".into(),
+        "A B\n(random 1) 1\n".into(),
+        "A B\nbits(,1) 1\n".into(),
+        "A B\nbits(2 1)\n".into(),
+        "A B\nbits(0x,1) 1\n".into(),
+        "A B\nend\n".into(),
+        "A B\nend end\n".into(),
+        "A B\nloop(i,1)\nend é\n".into(),
+        "A B\n99999999999999999999 1\n".into(),
+        "A B\n0xFFFFFFFFFFFFFFFFFFFF 1\n".into(),
+        "A B\n0b11111111111111111111111111111111111111111111111111111111111111111 1\n".into(),
+        "A B\n07777777777777777777777777 1\n".into(),
         format!("A\n{}\n", "1 ".repeat(500_000)),
         format!("A\n{}", "\n".repeat(100_000)),
         format!("{}\n{}\n", (0..10_000).map(|i| format!("s{i}")).collect::<Vec<_>>().join(" "), "1 ".repeat(10_000)),
